@@ -11,7 +11,8 @@ const { Rng, hashStr, clip } = require('../lib/util')
 
 const CFGS = [
   ['FULL', FULL], ['RENAMED', SETS.RENAMED], ['CHAIN_COMMENTS', cfg({ chain: true, comments: true, methods: STRING_METHODS, verbosity: 'DEBUG' })],
-  ['NO_PREFIX', cfg({ prefix: null, methods: STRING_METHODS, verbosity: 'DEBUG' })], ['SUBSET_OFF', SETS.SUBSET], ['NO_PREFIX_CHAIN', cfg({ prefix: null, chain: true, comments: true, methods: ['trim', 'concat'] })]
+  ['NO_PREFIX', cfg({ prefix: null, methods: STRING_METHODS, verbosity: 'DEBUG' })], ['SUBSET_OFF', SETS.SUBSET], ['NO_PREFIX_CHAIN', cfg({ prefix: null, chain: true, comments: true, methods: ['trim', 'concat'] })],
+  ['EMPTY_PREFIX', cfg({ prefix: '', methods: STRING_METHODS, verbosity: 'DEBUG' })], ['ODD_PREFIX', cfg({ prefix: '$_9', methods: STRING_METHODS, chain: true })]
 ]
 
 const b64 = s => Buffer.from(s).toString('base64')
